@@ -6,7 +6,7 @@ import io
 import z3
 
 from .. import gen
-from ..dtsupport import Wrapped
+from ..dtsupport import Wrapped, Wrapped2
 from ..symstr import SymStr
 from . import common
 
@@ -60,6 +60,8 @@ def fill(lines, inp):
 
 def walk(v):
     from ZConfig.matcher import SectionValue
+    if isinstance(v, Wrapped2):
+        return ('W2', walk(v.value))
     if isinstance(v, Wrapped):
         return ('W', walk(v.value))
     if isinstance(v, SectionValue):
@@ -181,8 +183,17 @@ def ws_pred(c, i):
     return z3.Or(c == 32, c == 9, c == 0xA0, c == 0x2003, c == 0x3000, c == 12, c == 0x1c)
 
 
+ALLWS = [9, 11, 12, 13, 28, 29, 30, 31, 32, 0x85, 0xA0, 0x2003, 0x3000, 0x2028]
+
+
+def anyws_pred(c, i):
+    """every whitespace character of domain D except the line feed (includes the characters
+    str.splitlines treats as line boundaries: VT FF CR FS GS RS NEL LS)"""
+    return z3.Or([c == x for x in ALLWS])
+
+
 HOLE_PREDS = {'w': word_pred, 'v': value_pred, 'x': _no_nl, 'n': name_pred, 'd': dvalue_pred,
-              's': ws_pred, 'N': name1_pred}
+              's': ws_pred, 'N': name1_pred, 'S': anyws_pred}
 
 
 def join_rel(base, rel):
